@@ -26,6 +26,11 @@ Request objects: `Act.create` is `CreateConnectionRequest` alone — the object 
 schedules quantify over the creation point.  The repaired `handleJoinGame` never consults the snapshot for its decision
 (variant `joinBySnapshot` = a seeded defect that does).
 
+Deadlines: `Act.deadline c` (the request's context is done, at any time) enables `Act.watch c`, the watcher goroutine
+of the login / transition handler (`Activated`): it fails the request and closes the connection — modelled as ONE
+step, i.e. the watcher's two statements are assumed not to interleave with the connection's own read loop.
+`Beh.lateJoin` is the backend that logs in promptly and sends JoinGame only after being released.
+
 Abstractions: events other than ServerPreConnect are not modelled (no subscriber), Forge phases are absent (every
 result is "safe"), timeouts never fire, `Player.Disconnect` + `teardown` is a single step (`quitPlayer`), the client
 always answers the configuration hand-shake (folded into the backend step that needs the answer).
@@ -33,6 +38,7 @@ always answers the configuration hand-shake (folded into the backend step that n
 namespace Gate.C16
 
 inductive Beh | accept | refuse | kickLogin | eofLogin | kickConfig | kickTrans | eofTrans | enc | idle
+  | lateJoin      -- completes login (and configuration) promptly, then keeps silent before JoinGame until released
   deriving DecidableEq, Repr, Inhabited
 
 inductive Phase | dialing | login | config | transition | play | closed
@@ -82,6 +88,7 @@ structure Task where
   res : Option Res := none
   prev : Option Nat := none          -- server the player was on when the request object was CREATED (nil-able)
   tag : Nat := 0                     -- harness key of a request object kept for later (0 = none)
+  timed : Bool := false              -- Connect was called with a short deadline (driver bookkeeping)
   deriving DecidableEq, Repr, Inhabited
 
 structure Cfg where
@@ -90,6 +97,7 @@ structure Cfg where
   atomicSet : Bool
   foreignReset : Bool
   joinBySnapshot : Bool := false     -- defective: handleJoinGame consults the request's snapshot instead of the player
+  watcherCloses : Bool := true       -- repaired/original: the transition handler's deadline watcher closes the connection
   deriving Repr
 
 structure St where
@@ -104,6 +112,8 @@ structure St where
   clientPlay : Bool := false         -- the client's active session handler is the play handler
   tryIndex : Nat := 0
   scripts : Nat → List (Beh × Bool) := fun _ => []   -- per server: behaviour (and stall flag) of the coming dials
+  expired : Nat → Bool := fun _ => false   -- per connection: the request's context is done (deadline / cancel)
+  timed : Nat → Bool := fun _ => false     -- per connection: its request was issued with a short deadline (driver only)
 
 inductive Act
   | task (i : Nat)                   -- request / kick-path goroutine i runs its next critical section
@@ -111,6 +121,8 @@ inductive Act
   | spawn (m : Mode) (d : Nat) (ev : Ev)   -- CreateConnectionRequest(d) immediately followed by Connect
   | create (d : Nat) (tag : Nat)     -- CreateConnectionRequest(d) only: the object is kept, Connect comes later (if ever)
   | release (c : Nat)                -- a stalled backend goes on
+  | deadline (c : Nat)               -- the context of connection c's request expires (at ANY time)
+  | watch (c : Nat)                  -- the deadline watcher goroutine of c's login / transition handler runs
   | kick (c : Nat)                   -- backend sends Disconnect in play
   | drop (c : Nat)                   -- backend closes the connection in play
   | quit                             -- the client leaves
@@ -219,13 +231,16 @@ def stepBack (cfg : Cfg) (s : St) (c : Nat) : Option St :=
         if cfg.modern then
           some { s with conns := upd s.conns c { C with phase := .config, h := if s.clientPlay then .sw1 else .idle } }
         else
-          some { s with conns := upd s.conns c { C with phase := .transition } }
+          some { s with conns := upd s.conns c { C with phase := .transition, stalled := C.beh == .lateJoin,
+                                                        beh := if C.beh = .lateJoin then .accept else C.beh } }
     | .config =>
       match C.beh with
       | .kickConfig => some (setH (closeConn s c) c .cfgKick2)
-      | .accept | .kickTrans | .eofTrans =>      -- backend FinishedUpdate
+      | .accept | .kickTrans | .eofTrans | .lateJoin =>      -- backend FinishedUpdate
         if s.clientPlay then some (closeConn s c)    -- "expected client config session handler"
-        else some { s with conns := upd s.conns c { C with phase := .transition }, clientPlay := true }
+        else some { s with conns := upd s.conns c { C with phase := .transition, stalled := C.beh == .lateJoin,
+                                                           beh := if C.beh = .lateJoin then .accept else C.beh },
+                           clientPlay := true }
       | _ => none
     | .transition =>
       match C.beh with
@@ -275,6 +290,7 @@ def stepTask (cfg : Cfg) (s : St) (i : Nat) : Option St :=
         some { s with nconns := s.nconns + 1,
                       conns := upd s.conns s.nconns { server := T.dest, phase := .dialing, prev := T.prev },
                       inFlight := some s.nconns,
+                      timed := upd s.timed s.nconns T.timed,
                       tasks := upd s.tasks i { T with conn := some s.nconns, pc := .dial } }
   | .dial =>
       match T.conn with
@@ -308,7 +324,8 @@ def stepTask (cfg : Cfg) (s : St) (i : Nat) : Option St :=
       some (setPc s1 i .cancel)
   | .cancel =>        -- the caller's ctx is cancelled after the call: a login/transition handler still installed closes
       let s1 := match T.conn with
-        | some c => if (s.conns c).phase = .login || (s.conns c).phase = .transition then closeConn s c else s
+        | some c => if (s.conns c).phase = .login || ((s.conns c).phase = .transition && cfg.watcherCloses)
+                    then closeConn s c else s
         | none => s
       match T.mode, T.res with
       | .plain, _ => some (setPc s1 i .done)
@@ -352,6 +369,16 @@ def step (cfg : Cfg) (s : St) : Act → Option St
   | .create d tag => some (spawnTask s { pc := .created, orig := d, dest := d, prev := curServer s, tag := tag })
   | .release c => if c < s.nconns && (s.conns c).stalled then
         some { s with conns := upd s.conns c { s.conns c with stalled := false } } else none
+  | .deadline c => if c < s.nconns && !s.expired c then some { s with expired := upd s.expired c true } else none
+  | .watch c =>
+      -- Activated(): `<-requestCtx.Done()` → requestCtx.result(nil, deadline error); serverConn.disconnect()
+      -- (both statements as ONE step; the seeded defect drops the disconnect of the transition handler's watcher)
+      if c < s.nconns && s.expired c then
+        if (s.conns c).phase = .login || ((s.conns c).phase = .transition && cfg.watcherCloses) then some (closeConn s c)
+        else if (s.conns c).phase = .transition && (s.conns c).result.isNone then
+          some { s with conns := upd s.conns c { s.conns c with result := some .err } }
+        else none
+      else none
   | .kick c => if c < s.nconns && (s.conns c).phase = .play && (s.conns c).h = .idle then
         some (spawnTask (closeConn s c) { pc := .err2 (s.conns c).server, orig := (s.conns c).server, dest := (s.conns c).server })
       else none
@@ -378,7 +405,7 @@ def countAttempting (s : St) : Nat → Nat
 /-- number of attempts in flight -/
 def inFlightCount (s : St) : Nat := countAttempting s s.nconns
 
-def repaired (modern : Bool) (try_ : List Nat) : Cfg := ⟨modern, try_, true, false, false⟩
-def original (modern : Bool) (try_ : List Nat) : Cfg := ⟨modern, try_, false, true, false⟩
+def repaired (modern : Bool) (try_ : List Nat) : Cfg := ⟨modern, try_, true, false, false, true⟩
+def original (modern : Bool) (try_ : List Nat) : Cfg := ⟨modern, try_, false, true, false, true⟩
 
 end Gate.C16
